@@ -194,8 +194,10 @@ def judge(ctx, s1, s2, tb, fb):
     g1, g2 = geoms.build(s1), geoms.build(s2)
     if ctx.evaluations % 5 == 0:
         g1, g2 = geoms.build_derived(s1, ctx.rng), geoms.build_derived(s2, ctx.rng)
+    same_obj = False
     if s1 == s2 and ctx.evaluations % 2:
         g2 = g1               # compared with itself: the very same object on both sides
+        same_obj = True
         ctx.mon("affinity.same_object_twice")
     try:
         A.compute_affinity(g1, g2, time_buffer=tb, freq_buffer=fb)
@@ -208,6 +210,8 @@ def judge(ctx, s1, s2, tb, fb):
             geoms.edit_in_place(g2, ctx.rng)
             A.compute_affinity(g1, g2, time_buffer=tb, freq_buffer=fb)
             g2 = geoms.build(s2, how="dict")
+            if same_obj:
+                g1 = geoms.build(s1, how="dict")      # (the one object on both sides was moved: both names get fresh geometries again)
     except Exception as e:
         ctx.violate_exc("raises", f"raises:{type(e).__name__}", e, spec=spec)
         return
